@@ -174,6 +174,22 @@ def run(ctx):
             ents = entry_points(facts, roles)
             extra = table_edges(facts, roles)
             arity = PN.Arity(facts, roles)
+            # premise of the arity justification (J3): an operator only ever runs on an operand list whose length was
+            # checked against its descriptor — table entries are invoked by the operation evaluators, nowhere else
+            from .c03 import table_invokers
+            from .c04 import operator_receives_operand_list
+            for tb_ in roles.tables:
+                operator_receives_operand_list(ctx, facts, roles, tb_, tag, "K1.arity-premise", result_clause=False)
+            for ek in sorted(table_invokers(facts, roles)):
+                for cb in facts.fns():
+                    for cbi, ct in cb.calls():
+                        cc = callee_of(ct)
+                        if cc and cc["local"] and cc["key"] == ek:
+                            rk = cb.key
+                            while "::{closure#" in rk:
+                                rk = rk.rsplit("::{closure#", 1)[0]
+                            ctx.check(rk in roles.evaluators, "K1.source", "arity premise: %s ← %s (%s)" % (ek.split("::", 1)[1], cb.key.split("::", 1)[1], tag),
+                                      "an operator is run from %s on an operand list that never went through the length check: the positional accesses items[0..2] of the operators can be out of bounds (panic)" % cb.key.split("::", 1)[1], where=cb.where(cbi), fn=cb.key, nontrivial=True)
         else:
             ents = [b.key for b in facts.fns() if b.kind == "fn" and b.key.endswith("::main")]
             ctx.need(ents, "binary crate has no main")
@@ -366,6 +382,23 @@ def recursion(ctx, facts, roles, reach, extra, tag):
                       "the evaluator recursion re-enters the parser on a value that is not rule text (%s): recursion depth is no longer bounded by the nesting of the rule" % ", ".join(s.ident() for s in dirty[:3]),
                       where=dirty[0].body.where(dirty[0].bi) if dirty else "", fn=dirty[0].body.key if dirty else None, nontrivial=True,
                       sample={"cycle": "evaluator", "functions": len(cs), "witness": "all %d parser call sites receive rule text only (C04 K1): each nested parse is a strict sub-term of the rule" % len(s1)})
+            # depth is bounded by the nesting of the rule; the *work* is bounded too only if no level evaluates an operand
+            # twice (an operand evaluated twice at each of d nested levels costs 2^d evaluations: a hang at depth 64)
+            if not getattr(ctx, "_once_done", {}).get(tag):
+                ctx._once_done = dict(getattr(ctx, "_once_done", {}), **{tag: True})
+                from .c05 import at_most_once
+                from .opfacts import Unit
+                seen_fn = set()
+                for tb_ in roles.tables:
+                    if tb_.role != "lazy":
+                        continue
+                    for e_ in tb_.entries:
+                        if e_.fn_key in seen_fn:
+                            continue
+                        seen_fn.add(e_.fn_key)
+                        u_ = Unit(roles, e_.fn_key, extended=True)
+                        if [s_ for s_ in u_.calls(lambda c: c.get("key") == roles.parsed_evaluate)]:
+                            at_most_once(ctx, facts, roles, u_, e_.key, tag, "K2.work")
             # that witness speaks about the cycles that go through the parser or an evaluate function; a cycle inside the
             # component that avoids both (a helper calling itself on the rest of an operand list, say) needs its own
             rest = [k for k in comp if k not in evaluator_keys]
